@@ -4,7 +4,7 @@ import core, gennb, pyspec, wire
 
 PROP = 'C14'
 CATS = ['sources', 'outputs', 'attachments', 'metadata', 'id', 'details']
-ASSUME = ['for the text printed by nbdiff the renderer-side meaning of details is used (everything no other option covers: nbformat, nbformat_minor, remaining cell keys), as args.py documents',
+ASSUME = ['for the text printed by nbdiff, details also comprises the format version keys nbformat / nbformat_minor (hidden by the renderer together with details); other cell keys such as cell_type belong to no category',
           'category membership of a notebook location is decided by the harness from the property text (sources, outputs, attachments, metadata at notebook/cell/output level, cell ids, details = execution counts of cells and outputs)',
           'the Ignore configuration mapping equivalent to a subset is built from the documented path table']
 
@@ -22,6 +22,7 @@ def mapping_for(ignored):
     if 'id' in ignored: cell_keys.append('id')
     if 'attachments' in ignored:
         m['/cells/*/attachments'] = True; cell_keys.append('attachments')
+    if 'outputs' in ignored: cell_keys.append('outputs')
     if cell_keys: m['/cells/*'] = cell_keys
     return m
 
@@ -45,13 +46,12 @@ def cats_of(path):
     return out
 
 def render_cats(path):
-    """categories of a path printed by the text renderer; there 'details' also covers what no other option
-    covers (args.py: 'details not covered by other options'): nbformat, nbformat_minor, other cell keys"""
+    """categories of a path printed by the text renderer; there 'details' also covers the format version keys
+    nbformat / nbformat_minor (args.py: 'details not covered by other options'; prettyprint.py hides them with details)"""
     keys = [int(k) if k.isdigit() else k for k in path.split('/')[1:]]
     out = cats_of(keys)
     p = ['*' if isinstance(k, int) else k for k in keys]
     if p[:1] in (['nbformat'], ['nbformat_minor']): out.add('details')
-    if p[:2] == ['cells', '*'] and len(p) >= 3 and p[2] not in ('source', 'outputs', 'attachments', 'metadata', 'id'): out.add('details')
     return out
 
 def judge_render(case, res):
@@ -85,12 +85,12 @@ def project(nb, ignored):
         if 'attachments' in ignored: c.pop('attachments', None)
         if 'metadata' in ignored: c['metadata'] = {}
         if 'id' in ignored: c.pop('id', None)
-        if 'details' in ignored and 'execution_count' in c: c['execution_count'] = None
+        if 'details' in ignored: c.pop('execution_count', None)
+        if 'outputs' in ignored: c.pop('outputs', None)
         if 'outputs' in c:
-            if 'outputs' in ignored: c['outputs'] = []
             for o in c['outputs']:
                 if 'metadata' in ignored and 'metadata' in o: o['metadata'] = {}
-                if 'details' in ignored and 'execution_count' in o: o['execution_count'] = None
+                if 'details' in ignored: o.pop('execution_count', None)
     return nb
 
 def judge(case, res):
@@ -152,6 +152,8 @@ def run(tier, seed):
             for m in modes:
                 cases.append({'a': a, 'b': bb, 'ignored': sorted(ign), 'mode': m, 'kind': kind})
     tasks = [{'op': 'nbdiff_ignore', 'a': c['a'], 'b': c['b'], 'ignored': c['ignored'], 'mode': c['mode'], 'mapping': mapping_for(set(c['ignored'])), 'render': True} for c in cases]
+    if os.environ.get('VERIF_DUMP_TASKS'):
+        json.dump(tasks, open(os.environ['VERIF_DUMP_TASKS'], 'w')); print('dumped', len(tasks)); return 0
     results = core.run_impl(tasks, shards=14)
     hist = {}; nontrivial = set(); rendered = 0
     for c, res in zip(cases, results):
